@@ -19,8 +19,8 @@ e) revocation is visible to the next request: user_ops::revoke_key returns Ok on
 (g) only key creation activates a key: every User / UserKey record built in engine::auth whose secret_key is copied from an existing record takes `active` from that same record (or sets it false: revocation);
 a constant true next to a copied secret re-activates a revoked key on the next permission update.
 """
-FLOOR = 17
-REQUIRED = ["C13.a", "C13.b1", "C13.b2", "C13.b3", "C13.c", "C13.d", "C13.e", "C13.f", "C13.g", "C13.h", "C13.i", "C13.j"]
+FLOOR = 18
+REQUIRED = ["C13.a", "C13.b1", "C13.b2", "C13.b3", "C13.c", "C13.d", "C13.e", "C13.f", "C13.g", "C13.h", "C13.i", "C13.j", "C13.k"]
 
 GATES = r"(tcp::listener::check_auth|http::dispatcher::check_auth_with_headers|Connection::check_auth|AuthManager::validate_session_token)(::\{closure#0\})?$"
 MAPT = re.compile(NEXT_TRANSPARENT.pattern[:-2] + r"|(std|core)::option::Option::<T>::(map|and_then))$")
@@ -522,6 +522,17 @@ def run(ctx):
                 bad.append(("sessions-survive-revoke", "AuthManager::revoke_key returns Ok without revoking the user's session tokens", None))
         for nm in ("auth::permission_ops::grant_permission", "auth::permission_ops::revoke_permission"):
             p = F.fn(nm)
+            # a thin wrapper (grant = `set these bits, clear the others`) is judged by the function it hands the work to
+            for _ in range(2):
+                if any(c_.nname.endswith("permission_ops::update_caches") for c_ in p.calls if not c_.cleanup):
+                    break
+                dl = [c_ for c_ in p.calls if not c_.cleanup and c_.callee and re.search(r"auth::permission_ops::\w+$", norm_path(c_.callee)) and F.has(c_.callee)]
+                oks_own = [bb for (bb, j, v, dst) in p.aggregates("result::Result", "Ok") if dst == [0]]
+                if len(dl) == 1 and not oks_own:
+                    inst.sites.append("%s delegates to %s" % (nm.split("::")[-1], dl[0].nname.split("::")[-1]))
+                    p = F.fn(norm_path(dl[0].callee))
+                else:
+                    break
             oks = [bb for (bb, j, v, dst) in p.aggregates("result::Result", "Ok") if dst == [0]]
             uc = one(p, r"permission_ops::update_caches$")
             de = done_edge(p, uc)
@@ -539,7 +550,7 @@ def run(ctx):
     # ------------------------------------------------------------------ f
     def f_(inst):
         b = F.fn("handlers::permissions::handle")
-        gps = calls(b, r"AuthManager::grant_permission$", 2)
+        gps = calls(b, r"AuthManager::(grant_permission|update_permission)$", 2)
         bad = []
         for gp in gps:
             loop = {x for x in b.live_blocks() if b.can_reach(x, gp.bb) and b.can_reach(gp.bb, x)}
@@ -595,6 +606,15 @@ def run(ctx):
         for nm in ("auth::permission_ops::grant_permission", "auth::permission_ops::revoke_permission", "auth::user_ops::revoke_key"):
             b = F.fn(nm)
             short = nm.split("::")[-1]
+            for _ in range(2):
+                if any(c.nname.endswith("UserCache::get") for c in b.calls if not c.cleanup):
+                    break
+                dl = [c for c in b.calls if not c.cleanup and c.callee and re.search(r"auth::(permission_ops|user_ops)::\w+$", norm_path(c.callee)) and F.has(c.callee)]
+                if len(dl) == 1:
+                    b = F.fn(norm_path(dl[0].callee))
+                    short = short + " -> " + b.key.split("::{closure")[0].split("::")[-1]
+                else:
+                    break
             gets = [c for c in b.calls if not c.cleanup and c.nname.endswith("UserCache::get")]
             if len(gets) != 1:
                 raise AnchorMissing("UserCache::get in %s (%d)" % (short, len(gets)))
@@ -706,3 +726,61 @@ def run(ctx):
                 bad.append(("revocation-not-cached", "revoke_key caches a record whose `active` is %s, not the constant false" % sorted(ca), sp(b, c.bb)))
         return bad
     ctx.run("C13.j", "K7 PROV + K11", "engine::auth::user_ops::revoke_key", "a revocation is persisted and cached as active = false", j_)
+
+    def k_(inst):
+        """GRANT / REVOKE of one permission bit is a read-modify-write of the user's permission set. The set written must not be
+        computed from a copy the HANDLER read in an earlier call (get_permissions): two requests that each read, merge and write
+        lose one another's bit, and a GRANT resurrects a bit a concurrent REVOKE cleared. What the handler passes down derives
+        from the command only; the merge happens under the lock (C13.h)."""
+        bad = []
+        b = F.fn("handlers::permissions::handle")
+        writes = [c for c in b.calls if not c.cleanup and re.search(r"AuthManager::(grant_permission|update_permission|revoke_permission)$", c.nname)]
+        reads = [c for c in b.calls if not c.cleanup and re.search(r"AuthManager::get_permissions$", c.nname)]
+        if not writes:
+            raise AnchorMissing("AuthManager::grant_permission / update_permission in handlers::permissions::handle")
+        rl = set()
+        for r in reads:
+            pl, aw = b.result_value_place(r)
+            start = [aw[0].dest[0]] if aw is not None else pl
+            rl |= {l for l, _ in b.flow_forward(start)}
+        inst.sites = [sp(b, c.bb) for c in writes] + ["permission reads in the handler: %d" % len(reads)]
+        def from_read(op, depth=6, seen=None):
+            """does the operand derive from the result of get_permissions, through adaptor calls (ok / and_then / unwrap_or_else ...)?"""
+            seen = seen if seen is not None else set()
+            for l in b.origins(op):
+                if l[0] != "call" or l[2] in seen:
+                    continue
+                seen.add(l[2])
+                if "get_permissions" in l[1]:
+                    return True
+                cc = b.call_at(l[2])
+                if depth > 0 and cc is not None and any(from_read(a2, depth - 1, seen) for a2 in cc.args[:1]):
+                    return True
+            return False
+        # switches on a value read from get_permissions (`existing.read || requested.read` is control flow, not data flow)
+        rsw = []
+        for i_ in sorted(b.live_blocks()):
+            if b.blocks[i_]["t"]["t"] != "switch":
+                continue
+            si = b.switch_info(i_)
+            if si and si["kind"] == "bool" and ((b._origin_locals(si["op"]) & rl) or from_read(si["op"])):
+                rsw.append((i_, si))
+
+        def control_dep(locals_):
+            for l_ in locals_:
+                for (bb_, j_, dpl, rv) in b.defs().get(l_, []):
+                    for i_, si in rsw:
+                        t_, f_ = si["true"], si["false"]
+                        dt = t_ is not None and b.dominates_edge((i_, t_), bb_)
+                        df = f_ is not None and b.dominates_edge((i_, f_), bb_)
+                        if dt != df:
+                            return True
+            return False
+        for w in writes:
+            for a_ in w.args[1:]:
+                W_ = wide_all(b, a_) | b._origin_locals(a_)
+                if (W_ & rl) or control_dep(W_) or from_read(a_):
+                    bad.append(("permission-set-merged-outside-lock:%s" % w.nname.split("::")[-1], "handlers::permissions::handle hands %s a permission set computed from an earlier get_permissions: a concurrent GRANT / REVOKE of the other bit between the two calls is overwritten (lost READ / WRITE bit, resurrected permission)" % w.nname.split("::")[-1], sp(b, w.bb)))
+                    break
+        return bad
+    ctx.run("C13.k", "K7 PROV", "handlers::permissions::handle", "the handler does not write back a permission set it read earlier", k_)
